@@ -180,7 +180,7 @@ PROPS["C09"] = {
     "technique": "deterministic simulation under the race detector: seeded choice of the order of critical sections with the scheduler's own task->coordinator synchronisation hidden from the detector, so that a report means two accesses unordered by oxy's own locks in a legal lock order; reports are per run and replayable",
     "level_text": "seeded search over lock orders and operation mixes; a race is only found if both accesses execute in the sampled run; sampled, not exhaustive",
     "level_note": "trusted: Go race detector (runtime.RaceDisable semantics, GORACE flags), simrt's hand-off protocol (the coordinator never acquires from a task), the lock-free clock shim added to the scratch copy; the number of reports of one run may vary by one, the verdict is 'at least one'; CircuitBreaker.String() is not called concurrently (log helper, not an inspection call)",
-    "assumptions": ["'no counter update is lost' follows from race freedom (DRF-SC); the serialised simulator cannot lose an update physically", "the trace writer is the caller's and is mutex-protected"],
+    "assumptions": ["lost updates are checked for RTMetrics (exact counts audited after the run); for the other middlewares the behavioural checks C01-C04, C14 play that role", "the trace writer is the caller's and is mutex-protected"],
 }
 
 NET_NOTE = ("trusted: rapid; the in-memory transport of the harness; net/http's server, Transport and ReverseProxy run as real code with their own goroutines, which the simulator does not schedule: each exchange is one causal chain "
